@@ -24,6 +24,7 @@ def load_api(only_auth=False):
         if n.startswith("checkformat_") or n.startswith("is_"):
             api[n] = getattr(C, n)
     api["canonserialize"] = C.canonserialize
+    api["json_loads"] = json.loads
     api["verify_signature"] = A.verify_signature
     api["verify_gpg_signature"] = A.verify_gpg_signature
     api["verify_signable"] = A.verify_signable
